@@ -54,7 +54,10 @@ class Env:
 
 class Explorer:
     def __init__(self, body, on_call=None, on_stmt=None, on_exit=None, on_edge=None,
-                 max_states=200000):
+                 max_states=200000, absorbing=()):
+        # client states in `absorbing` never change again and the client does not care how such a path ends:
+        # they are explored once per block, whatever is known about locals
+        self.absorbing = tuple(absorbing)
         self.body = body
         self.on_call = on_call
         self.on_stmt = on_stmt
@@ -264,7 +267,7 @@ class Explorer:
         work = [(0, init_state, init_env or Env(), ())]
         while work:
             bb, state, env, trace = work.pop()
-            key = (bb, state, env.key())
+            key = (bb, state, None) if state in self.absorbing else (bb, state, env.key())
             if key in self.visited:
                 continue
             self.visited.add(key)
